@@ -328,6 +328,10 @@ func (g *mgen) genSpec() *rspec.Spec {
 			s.Mounts = append(s.Mounts, g.mount(k).ToOCI(nil))
 		}
 	}
+	if g.chance(0.5) {
+		// a runtime's own mounts need not be in the generator's order
+		g.rng.Shuffle(len(s.Mounts), func(i, j int) { s.Mounts[i], s.Mounts[j] = s.Mounts[j], s.Mounts[i] })
+	}
 	for _, k := range devKeys {
 		if g.chance(0.3) {
 			d := g.device(k).ToOCI()
@@ -694,6 +698,9 @@ type sysSpec struct {
 	Innocent bool   // plugins in between do unrelated things
 }
 
+// sameValueKinds: keyed kinds for which "two plugins give two DIFFERENT keys the SAME value" is built.
+var sameValueKinds = map[string]bool{"unified": true, "annotation": true, "env": true, "hugepage": true}
+
 // origValueKinds: kinds for which "the earlier plugin sets exactly the value the runtime submitted" is
 // built by applying that plugin's adjustment to the original spec with the project's generator.
 var origValueKinds = map[string]bool{"cgroupspath": true, "oomscoreadj": true, "annotation": true, "env": true, "args": true,
@@ -724,6 +731,9 @@ func systematicSpecs() []sysSpec {
 					pats = append(pats, "reset-then-collide")
 				}
 				pats = append(pats, "same-value")
+				if sameValueKinds[k.name] {
+					pats = append(pats, "different-key-same-value")
+				}
 				if p != "create-adjust" && d.n == 2 {
 					pats = append(pats, "self-repeat")
 				}
@@ -842,6 +852,40 @@ func (g *mgen) genSystematic(id string, s sysSpec) *MCase {
 			c.Resp[s.B].Adjust = proto.Clone(ra.Adjust).(*api.ContainerAdjustment)
 		}
 		c.Resp[s.B].Updates = cloneUpdates(ra.Updates)
+	case "different-key-same-value":
+		// two different keys of one family receive the very same value from two plugins: different items, no conflict
+		put(s.A, false, true)
+		other := kd.keys[0]
+		if other == key {
+			other = kd.keys[1]
+		}
+		if s.Path == "create-adjust" {
+			b := &api.ContainerAdjustment{}
+			a := c.Resp[s.A].Adjust
+			switch s.Kind {
+			case "annotation":
+				b.Annotations = map[string]string{other: a.Annotations[key]}
+			case "env":
+				b.Env = []*api.KeyValue{{Key: other, Value: a.Env[len(a.Env)-1].Value}}
+			case "unified":
+				ensureRes(&ensureLinuxAdj(b).Resources).Unified = map[string]string{other: a.GetLinux().GetResources().GetUnified()[key]}
+			case "hugepage":
+				hp := a.GetLinux().GetResources().GetHugepageLimits()
+				ensureRes(&ensureLinuxAdj(b).Resources).HugepageLimits = []*api.HugepageLimit{{PageSize: other, Limit: hp[len(hp)-1].Limit}}
+			}
+			c.Resp[s.B].Adjust = b
+		} else if ups := c.Resp[s.A].Updates; len(ups) > 0 {
+			ra := ups[len(ups)-1].GetLinux().GetResources()
+			u := &api.ContainerUpdate{ContainerId: ups[len(ups)-1].ContainerId, Linux: &api.LinuxContainerUpdate{Resources: &api.LinuxResources{}}}
+			switch s.Kind {
+			case "unified":
+				u.Linux.Resources.Unified = map[string]string{other: ra.GetUnified()[key]}
+			case "hugepage":
+				hp := ra.GetHugepageLimits()
+				u.Linux.Resources.HugepageLimits = []*api.HugepageLimit{{PageSize: other, Limit: hp[len(hp)-1].Limit}}
+			}
+			c.Resp[s.B].Updates = append(c.Resp[s.B].Updates, u)
+		}
 	case "single":
 		put(s.A, false, true)
 	case "self-repeat":
